@@ -316,6 +316,8 @@ DECLS_C = [
     ("semis", "#include <stdbool.h>\nstruct Q { int z; };;\nint sf(void)\n{\n    int k = 0;;\n    for (;;) { break; };\n    return k;\n};\n"),
     ("boolexpr", "int bf(int x, int y, int z)\n{\n    if (x == 1 && y != 2 || z)\n        return 1;\n    return x < y == z > x;\n}\n"),
     ("ternary", "int tf(int x, int y)\n{\n    return x ? y : x ? 1 : 2;\n}\n"),
+    ("cmtblock", "int cb(int x)\n{\n    /*****\n     * banner\n     *****/\n    x++;\n    /* single */\n    if (x) {\n        /**\n         * doc\n         */\n        x--;\n"
+                 "        /*-----\n          plain body\n        -----*/\n        x += 2;\n    }\n    return x; /* trailing */\n}\n"),
     ("strings", "const char *s1 = \"a\" \"b\";\nconst char *s2 = \"tab\\there\";\nconst char s3[] = \"quote\\\"q\";\nint ch = '\\'';\nconst char *s4 = \"trailing   \";\n"),
 ]
 
@@ -404,6 +406,8 @@ PP = [
     ("nested-if", "#define A 1\n#define B 0\n#if A\n# if B\nint n1;\n# else\nint n2;\n# endif\n#endif\n"),
     ("define-expr-ops", "#define NEG(x) (-(x))\n#define DEREF(p) (*(p))\n#define DIV(a, p) ((a) / *(p))\n#define INC(x) ((x)++ + ++(x))\nint xx;\n"),
     ("define-stmt", "#define CHECK(c) if (!(c)) return -1\n#define LOOP for (;;)\nint f(int a)\n{\n    CHECK(a);\n    LOOP { break; }\n    return 0;\n}\n"),
+    ("define-in-case", "int g(void);\nint dc(int a)\n{\n    switch (a) {\n    case 1: {\n#define INNER(x) do { if (x) { g(); } } while (0)\n        INNER(a);\n        break;\n    }\n"
+                       "    default:\n        break;\n    }\n    return a;\n}\n"),
     ("dir-comment", "#define V 1 /* value */\n#define W 2 // other\n#if V /* c */\nint k;\n#endif // V\n"),
     ("error-warning", "#define OK 1\n#if !OK\n#error \"not ok: a  b\"\n#endif\nint e;\n"),
     ("define-cont-cmt", "#define M(a) \\\n    /* first */ \\\n    ((a) + 1)\nint u = M(1);\n"),
